@@ -19,6 +19,7 @@
 import TshVerif.Lemmas.SemBStraight
 import TshVerif.Lemmas.SemBCtl
 import TshVerif.Lemmas.SemBLoop
+import TshVerif.Lemmas.SemBDet
 
 namespace Tsh.C05S
 open Tsh Tsh.Tr Tsh.Batch Tsh.Sem Tsh.SemB
@@ -197,6 +198,23 @@ theorem batch_preserves_scalar_semantics (p : Program) (hf : Src.fragStmts p = t
   · simp at hc
   · simp at hc
 
+/-- **The outcome is unique, and it is the one the executable tree interpreter computes.**  The relation `ExecBs` is
+    deterministic and the interpreter `execBs` - the function that is run on the tree rebuilt from every script, next to the
+    line-level machine and lib/cmdsim.py, in every check - is sound for it: so for a program of the scalar fragment, whenever
+    the source semantics and the interpreter both finish, they give the same outcome and the same printed lines. -/
+theorem batch_tree_outcome_unique (p : Program) (hf : Src.fragStmts p = true) (hn : simpleLoopsStmts p = true)
+    (ls : List BLine) (hc : compile p = .ok ls) :
+    ∃ (st : St) (cmds : List BCmd),
+      ls = st.startCode.reverse ++ helperLines st ++ flats none cmds ++ [.label "end", .raw "endlocal & exit /B %_e%"] ∧
+      ∀ f1 f2 o1 out1 o2 c2, Src32.runProgram f1 p = some (o1, out1) → execBs f2 cmds ⟨startStore, []⟩ = some (o2, c2) →
+        o1 = o2 ∧ out1 = c2.out := by
+  obtain ⟨st, cmds, e, sem⟩ := batch_preserves_scalar_semantics p hf hn ls hc
+  refine ⟨st, cmds, e, ?_⟩
+  intro f1 f2 o1 out1 o2 c2 hs hx
+  obtain ⟨c', ex, eo, _⟩ := sem f1 o1 out1 hs
+  obtain ⟨h1, h2⟩ := execBs_det ex (execBs_sound f2 cmds _ o2 c2 hx)
+  exact ⟨h1, by rw [← eo, h2]⟩
+
 /-! non-vacuity: a program with a nested loop, `break`, `continue`, an if / else-if / else chain and a panic is in the fragment, runs in
     the source semantics, and its script runs in the line-level machine of `Sem/Cmd` to the same printed lines and exit code -/
 private def iv : Var := { name := "i", vt := ⟨.int, false⟩, global := true, pub := false }
@@ -213,6 +231,9 @@ example : Src.fragStmts loopSample = true ∧ simpleLoopsStmts loopSample = true
 #guard Src32.runProgram 100 loopSample == some (.exit 1, ["0", "j 0", "2", "j 0", "j 1", "j 2", "panic: stop"])
 #guard (match compile loopSample with
   | .ok ls => SemB.run 10000 ls == some (.exit 1, ["0", "j 0", "2", "j 0", "j 1", "j 2", "panic: stop"])
+  | _ => false)
+#guard (match compile loopSample with
+  | .ok ls => SemB.runTree 10000 ls == some (.exit 1, ["0", "j 0", "2", "j 0", "j 1", "j 2", "panic: stop"])
   | _ => false)
 
 end Tsh.C05S
